@@ -632,7 +632,7 @@ func refVerify(t *PTx, idx int, prev []POut) string {
 		if !bytes.Equal(hash160(rs), scr[2:22]) {
 			return "redeem script does not hash to the output's hash"
 		}
-		if n := len(rs); n >= 3 && rs[n-1] == 0xae {
+		if n := len(rs); n >= 3 && rs[n-1] == 0xae && !(n == 22 && rs[0] == 0 && rs[1] == 20) { // (a P2WPKH program may end in 0xae too)
 			return multisigOK(t, idx, in, ps[:len(ps)-1], rs)
 		}
 		if len(ps) != 1 || len(in.Sig) != 23 {
@@ -1021,7 +1021,13 @@ func (x *conc) setup() error {
 		in.Sig = push(prb(8, "fundsig", t))
 		in.Seq = 0xffffffff
 		p.In = []PIn{in}
-		for v := 0; ; v++ {
+		maxv := -1
+		for _, u := range c.Unsp {
+			if u.T == t && u.V > maxv {
+				maxv = u.V
+			}
+		}
+		for v := 0; v <= maxv; v++ {
 			found := false
 			for j, u := range c.Unsp {
 				if u.T == t && u.V == v {
@@ -1030,7 +1036,16 @@ func (x *conc) setup() error {
 				}
 			}
 			if !found {
-				break
+				// a decoy: an output of the same transaction that is NOT listed in balance/unspent.txt.  Every other one
+				// pays to a key of the wallet (so a misread index finds something it can sign for), the rest to strangers.
+				d := POut{Value: 700000 + uint64(v)*1000 + uint64(prn(999, "decoyamt", salt, x.line, t, v))}
+				if v%2 == 0 {
+					k := w.nimp + (v/2+salt+x.line)%KeyCnt
+					d.Script = w.scriptOf([]string{"P2WPKH", "P2PKH", "P2TR"}[(v/2)%3], k)
+				} else {
+					_, d.Script = x.foreignAddr("P2PKH", "decoy", x.line, t, v)
+				}
+				p.Out = append(p.Out, d)
 			}
 		}
 		x.utx[t] = p
